@@ -195,6 +195,16 @@ class PlacementHandler(object):
         self.config = local_config['config']
 
     def __call__(self, environ, start_response):
+        try:
+            return self._call(environ, start_response)
+        except webob.exc.HTTPError as exc:
+            # The microversion middleware adds the Vary header to the
+            # responses it is handed, but only the version header to the
+            # errors raised through it, so add it here.
+            exc.headers.add('vary', 'openstack-api-version')
+            raise
+
+    def _call(self, environ, start_response):
         # set a reference to the oslo.config ConfigOpts on the RequestContext
         context = environ['placement.context']
         context.config = self.config
